@@ -105,6 +105,8 @@ class DictVM(pyvc.VM):
                     return BoolV(isdict(x.z))
                 if isinstance(x, LocalDictV):
                     return BoolV(True)
+                if isinstance(x, pyvc.NoneV):
+                    return BoolV(False)
             raise OutsideSubset("isinstance(%s, %s)" % (type(x).__name__, getattr(t, "name", t)))
         if name == "set":
             (x,) = args
@@ -126,8 +128,18 @@ class DictVM(pyvc.VM):
             return KeyUnionV(ds)
         return super().e_Tuple(e, env)
 
+    def e_Set(self, e, env):
+        # {*a.keys(), *b.keys()} is set([*a.keys(), *b.keys()])
+        if e.elts and all(isinstance(x, ast.Starred) for x in e.elts):
+            return self.e_List(e, env)
+        return super().e_Set(e, env)
+
     def e_Attribute(self, e, env):
         base = self.eval(e.value, env)
+        if isinstance(base, ValV) and e.attr == "get":
+            if not self.decide(isdict(base.z)):
+                raise Raised("AttributeError", "'%s' object has no attribute 'get'" % "leaf")
+            return _GetMethod(base.z)
         if isinstance(base, ValV) and e.attr == "keys":
             if not self.decide(isdict(base.z)):
                 raise Raised("AttributeError", "'%s' object has no attribute 'keys'" % "leaf")
@@ -138,6 +150,15 @@ class DictVM(pyvc.VM):
         f = self.eval(e.func, env)
         if isinstance(f, _KeysMethod):
             return KeysV(f.d)
+        if isinstance(f, _GetMethod):
+            if e.keywords or not 1 <= len(e.args) <= 2:
+                raise OutsideSubset("dict.get call shape")
+            k = self.eval(e.args[0], env)
+            if not isinstance(k, KeyV):
+                raise OutsideSubset("dict.get with key %s" % type(k).__name__)
+            if self.decide(haskey(f.d, k.z)):
+                return ValV(get(f.d, k.z))
+            return self.eval(e.args[1], env) if len(e.args) == 2 else pyvc.NoneV()
         if isinstance(f, FuncV) and f.qualname == self.rec_name and f.bound is None:
             args = [self.eval(a, env) for a in e.args]
             return self.recursive_call(args)
@@ -300,6 +321,13 @@ class _Continue(Exception):
 
 def pyvc_key(k):
     return KeyV(k)
+
+
+class _GetMethod(V):
+    pytype = "method"
+
+    def __init__(self, d):
+        self.d = d
 
 
 class _KeysMethod(V):
